@@ -81,6 +81,8 @@ def prove_with_defs(res, side, svc_defs, timeout_ms, st0, mdl0, max_queries=14):
     """unfold service definitions (pairs symbol, term) only as far as needed, breadth first from the residual: all light
     (polynomial) definitions of a level at once, heavy ones (case splits, uninterpreted functions) one at a time.  `sat` is final
     only with every reachable definition included."""
+    if timeout_ms <= 5000:
+        max_queries = min(max_queries, 6)
     defmap = {str(sym): (sym, rhs) for sym, rhs in svc_defs}
     heavy = {k: _heavy(rhs) for k, (sym, rhs) in defmap.items()}
     included, t_all, nq = [], 0.0, 0
@@ -327,7 +329,42 @@ def analyse(mname, timeout_ms=8000, scenario='online', only=None):
             continue
         out.append(dict(model=mname, var=vn, status=st, secs=round(dt, 2), kind=type(inst).__name__,
                         env=(eqsmt.model_env(mdl, names) if st == 'sat' else None)))
+    # hand-over: the power the device injects into its bus at the initial point is its share of the power-flow injection
+    for tag, (vn, svc, sign) in handover_rows(m).items():
+        if only is not None and tag not in only:
+            continue
+        try:
+            share = D(svc, names)
+            res = D(m.__dict__[vn].e_str, names) + sign * share
+            st, mdl, dt = eqsmt.check_neq(res, S(RV(0)), extra=side, timeout_ms=timeout_ms)
+            if st != 'unsat' and svc_defs:
+                st, mdl, dt2 = prove_with_defs(res, side, svc_defs, timeout_ms, st, mdl)
+                dt += dt2
+        except Exception as e:
+            out.append(dict(model=mname, var=tag, status='error', detail=repr(e)[:300]))
+            continue
+        out.append(dict(model=mname, var=tag, status=st, secs=round(dt, 2), kind='handover', env=None))
     return out, notes
+
+
+def handover_rows(m):
+    """{tag: (bus-row variable, service holding the device's share of the power-flow injection, sign)} for models that replace a
+    static generator (rows are -P, -Q of the device) or a static load (rows are +P, +Q)"""
+    rows = {}
+    ext = {v.src: vn for vn, v in m.algebs_ext.items() if getattr(v, 'model', None) == 'Bus' and v.src in ('a', 'v') and v.e_str is not None}
+    if len(ext) != 2:
+        return rows
+    allsvc = dict(list(m.services.items()) + list(m.services_ext.items()))
+    if 'p0' in allsvc and 'q0' in allsvc:
+        gen = 'p0s' in allsvc                      # generators: p0 = p0s * gammap; loads: p0 = Ppf of the static load
+        # the share is written here from the documented meaning of the split factors, not read from the model's own p0/q0 service
+        if gen and 'gammap' in m.params and 'gammaq' in m.params:
+            rows['handover_P'] = (ext['a'], 'p0s * gammap', 1)
+            rows['handover_Q'] = (ext['v'], 'q0s * gammaq', 1)
+        else:
+            rows['handover_P'] = (ext['a'], 'p0', 1 if gen else -1)
+            rows['handover_Q'] = (ext['v'], 'q0', 1 if gen else -1)
+    return rows
 
 
 def dyn_init(m):
@@ -371,10 +408,14 @@ def replay(mname, var, env, scenario='online'):
     cfg = m.config.as_dict()
 
     def arg(a):
-        if a in ('__zeros', '__falses'):
+        if a == '__zeros':
             return np.zeros(1)
-        if a in ('__ones', '__trues'):
+        if a == '__ones':
             return np.ones(1)
+        if a == '__falses':
+            return np.full(1, False)
+        if a == '__trues':
+            return np.full(1, True)
         if a in vals:
             v = vals[a]
         elif a in cfg:
@@ -390,9 +431,12 @@ def replay(mname, var, env, scenario='online'):
             vals[a] = v
         return np.array([v], dtype=complex if isinstance(v, complex) else float)
 
-    def call(fname, alist):
+    def call(fname, alist, scalar=False):
         with np.errstate(all='ignore'):
-            return gen.pyfunc(fname)(*[arg(a) for a in alist])
+            args = [arg(a) for a in alist]
+            if scalar:              # Model.solve_iter evaluates the iterative equations device by device on scalars
+                args = [a[0] for a in args]
+            return gen.pyfunc(fname)(*args)
 
     def first(x):
         return modelsmt.first(x)
@@ -406,6 +450,23 @@ def replay(mname, var, env, scenario='online'):
             vals[sn] = 1.0
     for vn in list(m.states) + list(m.algebs):
         vals[vn] = 0.0
+    # the same link facts as in setup_names, numerically
+    svc_by_link = {link_key(s): sn for sn, s in m.services_ext.items()}
+    for sn in m.services_ext:
+        arg(sn)
+    for vn, v in list(m.states_ext.items()) + list(m.algebs_ext.items()):
+        if type(v).__name__.startswith('Alias'):
+            continue
+        k = link_key(v)
+        if k in svc_by_link and v.v_str is None:
+            vals[vn] = vals[svc_by_link[k]]
+        elif v.src == 'omega' and v.model == 'SynGen':
+            ug = [pn for pn, p in m.params_ext.items() if link_key(p) == (v.model, 'u', k[2])]
+            vals[vn] = vals.get(ug[0], 1.0) if ug else 1.0
+        elif v.src == 'f' and v.model == 'FreqMeasurement':
+            vals[vn] = 1.0
+        elif v.src == 'te' and v.model == 'SynGen' and (v.model, 'tm', k[2]) in svc_by_link:
+            vals[vn] = vals[svc_by_link[(v.model, 'tm', k[2])]]
     from andes.core.service import PostInitService
     for dn, d in m.discrete.items():
         if type(d).__name__ == 'Switcher':
@@ -436,12 +497,12 @@ def replay(mname, var, env, scenario='online'):
                     vals[vn] = sol[vn]
             x = np.array([vals[vn] for vn in group], dtype=float)
             for _ in range(50):
-                r = np.array([first(e) for e in np.ravel(np.asarray(call(key + '_ii', ii[key]), dtype=object))], dtype=float)
+                r = np.array([first(e) for e in np.ravel(np.asarray(call(key + '_ii', ii[key], scalar=True), dtype=object))], dtype=float)
                 if not np.all(np.isfinite(r)):
                     return None
                 if np.max(np.abs(r)) < 1e-12:
                     break
-                J = np.array([[first(e) for e in row] for row in np.asarray(call(key + '_ij', ij[key]), dtype=object).reshape(len(group), len(group), -1)], dtype=float)
+                J = np.array([[first(e) for e in row] for row in np.asarray(call(key + '_ij', ij[key], scalar=True), dtype=object).reshape(len(group), len(group), -1)], dtype=float)
                 try:
                     x = x - np.linalg.solve(J, r)
                 except np.linalg.LinAlgError:
@@ -465,6 +526,13 @@ def replay(mname, var, env, scenario='online'):
     for sn in varsvc + post:
         if sn in s_args:
             vals[sn] = first(call(sn + '_svc', s_args[sn]))
+    if var in ('handover_P', 'handover_Q'):
+        vn, svc, sign = handover_rows(m)[var]
+        ret = call('g_update', C.get('g_args', []))
+        idx = list(m.cache.algebs_and_ext.keys()).index(vn)
+        share = eqsmt.nev_str(svc, {k: v for k, v in vals.items()})
+        r = first(ret[idx]) + sign * float(np.real(share))
+        return r, {k: v for k, v in vals.items() if not isinstance(v, complex)}
     if var in m.states:
         ret = call('f_update', C.get('f_args', []))
         idx = list(m.cache.states_and_ext.keys()).index(var)
@@ -475,7 +543,30 @@ def replay(mname, var, env, scenario='online'):
     return r, {k: v for k, v in vals.items() if not isinstance(v, complex)}
 
 
+def candidate_env(m):
+    """a generic concrete point (documented default parameters, an ordinary power-flow solution) used ONLY to look for a
+    reproducible counterexample when the solver answers `unknown` on a claimed obligation"""
+    env = {}
+    generic = {'gammap': 0.3, 'gammaq': 0.6}
+    for k, (pn, p) in enumerate(m.num_params.items()):
+        d = getattr(p, 'default', None)
+        try:
+            v = float(d)
+            if math.isnan(v) or math.isinf(v):
+                v = 1.0
+        except (TypeError, ValueError):
+            v = 1.0
+        env[pn] = generic.get(pn, v)
+    by_src = {'v': 1.02, 'a': 0.15, 'p': 0.45, 'q': 0.12, 'tm': 0.45, 'vf': 1.8, 'Sn': 100.0, 'Vn': 110.0, 'M': 6.0}
+    for sn, s in m.services_ext.items():
+        env[sn] = by_src.get(getattr(s, 'src', None), 0.9)
+    for pn, p in m.params_ext.items():
+        env[pn] = by_src.get(getattr(p, 'src', None), 1.0)
+    return env
+
+
 # ---------------------------------------------------------------------------------------------- the check
+SCENARIOS = ('online', 'any')        # every device in service / every status an arbitrary 0 or 1 (offline devices)
 SCOPE = os.path.join(os.path.dirname(os.path.abspath(__file__)), 'c05_scope.json')
 
 
@@ -488,6 +579,8 @@ def all_jobs(scenario, timeout_ms):
             for vn in list(m.states.keys()) + list(m.algebs.keys()):
                 if m.__dict__[vn].e_str is not None:
                     jobs.append((mn, vn, scenario, timeout_ms))
+            for tag in handover_rows(m):
+                jobs.append((mn, tag, scenario, timeout_ms))
     return jobs
 
 
@@ -501,9 +594,10 @@ def _job(job):
     res = []
     for x in out:
         x['scenario'] = scenario
-        if x['status'] == 'sat':
+        if x['status'] in ('sat', 'unknown'):
             try:
-                rp = replay(mn, vn, x['env'] or {}, scenario)
+                cand = (x.get('env') or {}) if x['status'] == 'sat' else candidate_env(modelsmt.system().models[mn])
+                rp = replay(mn, vn, cand, scenario)
             except Exception as e:
                 rp = None
                 x['replay_error'] = repr(e)[:200]
@@ -519,11 +613,11 @@ def build_scope():
     """(re)generate the list of obligations the check claims: those the solver proves on the tree as it is now"""
     import json
     out = {}
-    for scenario in ('online',):
+    for scenario in SCENARIOS:
         r = core.pmap(_job, all_jobs(scenario, 8000))
         for x in r:
             st = x['status']
-            if st == 'unsat' and x.get('secs', 0) > 4:
+            if st == 'unsat' and x.get('secs', 0) > 15:
                 st = 'unsat-slow'            # decided close to the time limit: claimed in the thorough tier only
             out.setdefault(scenario, {}).setdefault(x['model'], {})[x['var']] = st
     json.dump(out, open(SCOPE, 'w'), indent=0, sort_keys=True)
@@ -552,9 +646,16 @@ def main():
     scope = json.load(open(SCOPE)) if os.path.exists(SCOPE) else {}
     claimed = {(sc, mn, vn) for sc, d in scope.items() for mn, mv in d.items() for vn, st in mv.items() if st == 'unsat' or (thorough and st == 'unsat-slow')}
     timeout = 30000 if thorough else 8000
-    jobs = all_jobs('online', timeout)
-    if not thorough:
-        jobs = [j for j in jobs if ('online', j[0], j[1]) in claimed or j[0] not in scope.get('online', {}) or j[1] not in scope['online'][j[0]]]
+    jobs = []
+    for sc in SCENARIOS:
+        js = all_jobs(sc, timeout)
+        known = scope.get(sc, {})
+        mine = [j for j in js if (sc, j[0], j[1]) in claimed]
+        fresh = [j for j in js if j[1] not in known.get(j[0], {})]                        # a model or variable the scope has not seen
+        rest = [(j[0], j[1], j[2], 5000) for j in js if (sc, j[0], j[1]) not in claimed and j[1] in known.get(j[0], {})]
+        jobs += mine + fresh
+        if thorough and sc == 'online':
+            jobs += rest            # undecided obligations: one short attempt each, reported in the evidence, never claimed
     res = core.pmap(_job, jobs)
     undecided = []
     nproved = 0
@@ -572,13 +673,19 @@ def main():
                              f"on the generated code", dict(model=x['model'], var=x['var'], residual=x['residual'], values=x.get('replay_values')))
             else:
                 ck.ob('equilibrium', name, 'sat-not-reproduced', x.get('secs', 0))
+        elif x['status'] == 'unknown' and key in claimed and x.get('residual') is not None and x['residual'] > 1e-7:
+            # the solver could not decide a claimed obligation; the generic candidate point reproduces a non-zero residual on the real code
+            ck.ob('equilibrium', name, 'sat-replayed', x.get('secs', 0))
+            ck.violation('equilibrium', f"{x['model']}.{x['var']}",
+                         f"{x['model']}: the initial values do not annihilate {x['var']} at a generic point (documented default parameters): "
+                         f"residual {x['residual']:.6g} on the generated code", dict(model=x['model'], var=x['var'], residual=x['residual'], values=x.get('replay_values')))
         elif x['status'] in ('sat', 'unknown'):
             undecided.append(f"{x['model']}.{x['var']}: {x['status']}" + ('' if key in claimed else ' (not claimed)'))
             if key in claimed:
                 ck.ob('equilibrium', name, 'unknown', x.get('secs', 0))
         else:
             ck.errors.append(f"{name}: {x.get('detail', '')[-300:]}")
-    ck.bound(models=len({j[0] for j in jobs}), obligations=len(jobs), scenario='every device in service (u = 1)', timeout_ms=timeout)
+    ck.bound(models=len({j[0] for j in jobs}), obligations=len(jobs), scenarios='every device in service; every status an arbitrary 0/1 (offline devices)', timeout_ms=timeout)
     ck.assume('limiters, anti-windup blocks and dead bands in range (the property\'s premise; Model.init adjusts limits to make it so)',
               'parameter domains enforced by the loader (non_zero, non_negative, ...); statuses are 0/1; reference speed wref0 = 1',
               'values linked from other devices: an ExtService and an external variable with the same source are equal at init; machine speed = '
@@ -588,7 +695,7 @@ def main():
               'iteratively initialised groups: the Newton solution satisfies its v_iter equations')
     ck.out('obligations that need a premise about the data (gate selection of HVG/LVG blocks, power fractions of multi-shaft governors) or a '
            'fact about another device that is not one of the generic link facts: %d listed as undecided' % len(undecided),
-           'offline devices (u = 0) and power split between several devices on one static generator at system level',
+           'power split between several devices on one static generator at system level (per device: its share p0s*gammap is handed over)',
            'bus injection hand-over static -> dynamic at system level (C07 has the SMIB instance)', 'a simulation without disturbance beyond the first step',
            'models with sampling / delay / derivative blocks')
     ck.extra['undecided'] = sorted(undecided)
